@@ -3,6 +3,7 @@ package extract
 import (
 	"fmt"
 	"go/ast"
+	"go/types"
 	"strings"
 )
 
@@ -108,7 +109,7 @@ func nonLocalWrites(fd *ast.FuncDecl) []string {
 }
 
 // c14Round12Facts: appended to Generated/C14.lean by the C14 fact generator.
-func c14Round12Facts(fo *ast.File) (string, error) {
+func c14Round12Facts(repo string, fo *ast.File) (string, error) {
 	var sb strings.Builder
 	sb.WriteString("\n-- Round 12: what the read methods of `FixedOffsetDecoder` write outside their own locals (`recv:<field>`, `global:<name>`)\n")
 	for _, m := range []struct{ name, lean string }{
@@ -128,5 +129,54 @@ func c14Round12Facts(fo *ast.File) (string, error) {
 	sb.WriteString("/-- statement shape and calls of `FixedOffsetDecoder.GetBlock` -/\n")
 	sb.WriteString("def fixedOffsetDecoderGetBlockShape : List String := " + LeanStrList(stmtShapeQ(gb.Body.List, recvName(gb))) + "\n")
 	sb.WriteString("def fixedOffsetDecoderGetBlockCalls : List String := " + LeanStrList(CallSeq(gb)) + "\n")
+	// the 16/16 split of a uint32 (encoding.go) and the slice reinterpretations of utils.go: the returned expressions
+	// as written, and the guard in front of them
+	_, encf, err := ParseFile(repo, "pkg/encoding/encoding.go")
+	if err != nil {
+		return "", err
+	}
+	_, utf, err := ParseFile(repo, "pkg/encoding/utils.go")
+	if err != nil {
+		return "", err
+	}
+	sb.WriteString("\n-- Round 12: returned expressions (source text, one per `return`) of the uint32 split and of utils.go\n")
+	for _, m := range []struct {
+		f    *ast.File
+		name string
+		lean string
+	}{
+		{encf, "HighBits", "highBitsReturns"},
+		{encf, "LowBits", "lowBitsReturns"},
+		{encf, "ValueWithHighLowBits", "valueWithHighLowBitsReturns"},
+		{utf, "U32SliceToBytes", "u32SliceToBytesReturns"},
+		{utf, "BytesToU32Slice", "bytesToU32SliceReturns"},
+		{utf, "U64SliceToBytes", "u64SliceToBytesReturns"},
+		{utf, "BytesToU64Slice", "bytesToU64SliceReturns"},
+		{utf, "Float64ToBytes", "float64ToBytesReturns"},
+		{utf, "BytesToFloat64", "bytesToFloat64Returns"},
+	} {
+		fd := FindFunc(m.f, "", m.name)
+		if fd == nil {
+			return "", fmt.Errorf("func %s not found", m.name)
+		}
+		var rets []string
+		ast.Inspect(fd.Body, func(n ast.Node) bool {
+			switch x := n.(type) {
+			case *ast.IfStmt:
+				rets = append(rets, "if "+types.ExprString(x.Cond))
+			case *ast.ReturnStmt:
+				for _, e := range x.Results {
+					rets = append(rets, types.ExprString(e))
+				}
+			}
+			return true
+		})
+		sb.WriteString("def " + m.lean + " : List String := " + LeanStrList(rets) + "\n")
+	}
+	v, ok := ConstInts(encf)["maxLowBit"]
+	if !ok {
+		return "", fmt.Errorf("const maxLowBit not found")
+	}
+	sb.WriteString(fmt.Sprintf("def maxLowBit : Nat := %d\n", v))
 	return sb.String(), nil
 }
